@@ -74,12 +74,18 @@ func propC07(c *Ctx) {
 	jpkg := w.Pkg("jrpc2")
 	var fns []*ssa.Function
 	for _, fn := range w.RepoFuncs() {
-		if fn.Pkg == jpkg && len(callsToFn(fn, do)) > 0 {
+		inPkg := fn.Pkg == jpkg
+		if fn.Pkg == nil {
+			if o := fn.Origin(); o != nil && o.Pkg == jpkg {
+				inPkg = true // an instance of a generic function of the package (segmentOf[blockResp])
+			}
+		}
+		if inPkg && len(callsToFn(fn, do)) > 0 {
 			fns = append(fns, fn)
 		}
 	}
 	c.Rule("R7.1", "the error of every (*Client).do call is tested; the failing arm leaves with an error and never rejoins the success path", 6)
-	c.Rule("R7.2", "Error.Exists() of each decoded value is tested before any read of its result part", 8)
+	c.Rule("R7.2", "Error.Exists() of each decoded value is tested before any read of its result part", 6)
 	c.Rule("R7.3", "a nullable result pointer is nil-tested before it is dereferenced", 3)
 	existsFn := w.Fn("jrpc2", "Error.Exists")
 	nhError := w.Fn("jrpc2", "(*NumHash).error")
@@ -489,6 +495,37 @@ func existsFalseEdges(fn *ssa.Function, r respRoot, existsFn, recorder *ssa.Func
 	for _, call := range callsToFn(fn, existsFn) {
 		recv := call.Call.Args[0] // value of type Error: load of &X.Error
 		f, base := loadedField(recv)
+		if f == nil {
+			// the error member handed out by an accessor passed in as a function value
+			// (`rerr := rpcError(&resps[i])` with rpcError = func(r *blockResp) Error { return r.Error })
+			rv := stripConv(recv)
+			if u, ok := rv.(*ssa.UnOp); ok && u.Op == token.MUL {
+				if al, ok := u.X.(*ssa.Alloc); ok {
+					if cv := cellValue(al); cv != nil {
+						rv = stripConv(cv)
+					}
+				}
+			}
+			if ac, ok := rv.(*ssa.Call); ok && staticCallee(ac) == nil && !ac.Call.IsInvoke() && len(ac.Call.Args) == 1 && currentWorld != nil {
+				cals := NewResolver(currentWorld).Callees(ac)
+				all := len(cals) > 0
+				for _, cf := range cals {
+					if cf.Blocks == nil || len(cf.Params) != 1 {
+						all = false
+						continue
+					}
+					for _, ret := range returnsOf(cf) {
+						rf, rbase := loadedField(stripConv(returnValues(ret)[0]))
+						if rf != r.errFld || stripConv(rbase) != ssa.Value(cf.Params[0]) {
+							all = false
+						}
+					}
+				}
+				if all {
+					f, base = r.errFld, ac.Call.Args[0]
+				}
+			}
+		}
 		if f != r.errFld {
 			continue
 		}
